@@ -78,6 +78,20 @@ func (p c13) Gen(c *run.Ctx, idx int) (json.RawMessage, error) {
 	if idx%8 == 6 {
 		op = genNodeSpanProbe(r, cu, cu.spec.Data.IDStyle, cu.spec.Data.Pool)
 	}
+	if idx%8 == 5 {
+		// introspection answers are data too: same order every time, also when `name` is not selected or aliased
+		switch r.Intn(5) {
+		case 0:
+			op = &gen.Op{Query: "{ __schema { types { kind } } }"}
+		case 1:
+			op = &gen.Op{Query: "{ __schema { types { kind description fields { type { kind } } } directives { locations args { type { kind } } } } }"}
+		case 2:
+			op = &gen.Op{Query: "{ __schema { types { n: name kind } directives { n: name } } }"}
+		default:
+			op = genIntrospectionOp(r, cu.mono)
+		}
+		op.Tags = append(op.Tags, "introspection")
+	}
 	if op == nil {
 		op = genValidOp(r, cu.mono, prof)
 	}
